@@ -715,6 +715,7 @@ def m_tok_display(ex, n, a, f):
 def m_tok_to_string(ex, n, a, f):
     v = ex.deref(a[0])
     if isinstance(v, TS):
+        ex.ghost.setdefault('to_string_ts', []).append(v)
         return StringV(ts_chars(v))
     if isinstance(v, TIdent):
         return StringV(([ord('r'), ord('#')] if v.raw else []) + list(v.chars))
